@@ -24,14 +24,15 @@ t_li == <<46, 108, 91, 93>>          \* .l[]
 t_mi == <<46, 109, 91, 93>>          \* .m[]
 t_x  == <<46, 120>>                  \* .x
 t_xq == <<46, 120, 63>>              \* .x?
+t_xyq == <<46, 120, 46, 121, 63>>    \* .x.y?   (required .x, optional .y: both kinds of missing data)
 Sels == {t_id, t_a, t_aq, t_b, t_bq, t_l, t_l0, t_li, t_mi}
 
 sA == Str(<<97>>)  sAB == Str(<<97, 98>>)
 \* boundary numbers: the harness maps |v| = 2*10^9 to +/-1.5e308 (floats) and +/-(2^53-1) (ints)
 FHuge == Float2(2000000000)  FNegHuge == Float2(-2000000000)
 IHuge == Int_(2000000000)    INegHuge == Int_(-2000000000)
-Lits == {Int_(0), Int_(1), Int_(2), Float2(2), sA, sAB, Bool(TRUE), Null, FHuge, FNegHuge}
-      \cup (IF Size = "thorough" THEN {NaN, Float2(3), List(<<Int_(1), Int_(2)>>), IHuge, INegHuge, PInf} ELSE {})
+Lits == {Int_(0), Int_(1), Int_(2), Float2(2), sA, sAB, Bool(TRUE), Null, FHuge, FNegHuge, IHuge, INegHuge}
+      \cup (IF Size = "thorough" THEN {NaN, Float2(3), List(<<Int_(1), Int_(2)>>), PInf} ELSE {})
 Pats == {<<97, 42>>, <<42, 98>>, <<92, 42>>, <<42, 97, 97>>}            \* a*   *b   \*   *aa (overlapping false start on "aaa")
 
 Cmp(op, sel, v) == [op |-> op, sel |-> sel, val |-> v]
@@ -49,7 +50,7 @@ SeqsUpTo(S, n) == UNION {[1..k -> S] : k \in 0..n}
 Conns == {Conn(op, ss) : op \in {"and", "or"}, ss \in SeqsUpTo(Core, IF Size = "thorough" THEN 3 ELSE 2)}
 
 Inner == {Cmp("==", t_id, Int_(1)), Cmp(">", t_id, Int_(0)), Cmp("==", t_xq, Int_(1)), Cmp("==", t_x, Int_(1)),
-          Like(t_id, <<97, 42>>)}
+          Like(t_id, <<97, 42>>), Cmp("==", t_xyq, Int_(1))}
 Quants == {Quant(op, sel, s) : op \in {"all", "any"}, sel \in {t_l, t_lq, t_li, t_mi, t_a, t_id}, s \in Inner}
 
 Nested == {Not(c) : c \in {x \in Conns : Len(x.ss) = 2}} \cup
@@ -68,9 +69,10 @@ Stmts == Leaves \cup Conns \cup Quants \cup Nested
 Absent == <<"absent">>
 Ent(key, v) == IF K(v) = "absent" THEN <<>> ELSE <<Entry(key, v)>>
 Datum(a, b, l, mm) == Map(Ent(<<97>>, a) \o Ent(<<98>>, b) \o Ent(<<108>>, l) \o Ent(<<109>>, mm))
-DA == {Absent, Int_(1), sA, FNegHuge, Str(<<97, 97, 97>>), Bytes(<<97, 98>>)} \cup (IF Size = "thorough" THEN {Float2(2), NaN, FHuge, INegHuge} ELSE {})
+DA == {Absent, Int_(1), sA, FNegHuge, Str(<<97, 97, 97>>), Bytes(<<97, 98>>), Null, Float2(3), IHuge} \cup (IF Size = "thorough" THEN {Float2(2), NaN, FHuge, INegHuge} ELSE {})
 DB == {Absent, Int_(2), Int_(3)}
-DL == {Absent, List(<<>>), List(<<Int_(1), Int_(2)>>), List(<<Int_(2), sA>>), Int_(5)}
+DL == {Absent, List(<<>>), List(<<Int_(1), Int_(2)>>), List(<<Int_(2), sA>>), Int_(5),
+       List(<<Map(<<Entry(<<120>>, Map(<<>>))>>), Map(<<>>)>>)}       \* [{x: {}}, {}]: .x.y? is missing-optional on the first, missing-required on the second
       \cup (IF Size = "thorough" THEN {List(<<Int_(1)>>), List(<<Map(<<Entry(<<120>>, Int_(1))>>), Map(<<>>), Int_(1)>>)} ELSE {})
 DM == {Absent} \cup (IF Size = "thorough" THEN {Map(<<Entry(<<120>>, Int_(1)), Entry(<<121>>, Int_(2))>>)} ELSE {})
 DataSet == {Datum(a, b, l, mm) : a \in DA, b \in DB, l \in DL, mm \in DM}
